@@ -29,13 +29,15 @@ func (Engine) Info(prop string) core.Info {
 	return core.Info{
 		Level: "exploration",
 		Rule: "one plan = one scripted application (OpenTCP/OpenPortTCP, RegisterPort on port 0-3, optional second registration, Dial with 0-7 digipeaters or Listen/Accept, a writer goroutine with 0-24 Writes of 1-2048 bytes plus Flush/SendUI/Ping steps, a reader goroutine with buffer sizes 1 B-4 KB and think times 0-3 s, optional concurrent closer) driving the real agwpe package against the model TNC over one simulated TCP link with per-direction segmentation and latency tapes; the TNC script sends 0-150 connected-data frames of 1-700 bytes interleaved with foreign/unsolicited frames in one of three recorded regimes (paced: every frame is its own TCP write at its own instant and the TNC stays at most 7 frames ahead of the reader; burst: frames back to back while the reader is slow; coalesced: several frames per TCP write), ends with remote disconnect, local close or TNC close, and may inject one malformed transmission (lying DataLen, garbage, truncated frame then close) or a link cut; with a fault the oracle only demands: nothing wrong delivered, well-formed frames from the library, no crash. " +
-			"Non-trivial: at least one connected-data payload byte crossed in either direction (returned by Read or received by the model in a 'D' frame). Distinct: distinct event-log hash (link deliveries, frames at the model, client calls and results with simulated timestamps).",
+			"Multi-session arm (38 % of the plans, drawn after everything else so that the other plans are unchanged; plan field 'more'): 2-4 sessions on the SAME opened Port and TNC socket, each with its own connect mode (Dial/Accept on the Port's one listener), digipeaters, TNC answer to the connect request (accepted, refused, unanswered until the dial deadline), data script, reader, writer and closer: 55 % of the later sessions talk to the station of the session before them, 10 % to the station of any earlier session, the rest to a random one of four stations -- re-dial after local Close, after remote disconnect, after a refused or timed-out Dial, the same station calling in again, another station, Dial after Accept and Accept after Dial. Sessions follow each other once the link is quiet (no bytes in flight either way, no reply owed by the model, no refusal of an unaccepted inbound call under way: AGWPE frames carry callsigns, not connection identifiers) plus a plan-chosen gap; 30 % of the later sessions with another station instead start while the session before them is still running (overlapping connections on one Port). The model keeps one record per connection incarnation and every session has its own payload patterns; every clause (Read stream = that connection's D payloads, Write stream as received, connect frame kind and via field, Y polling, Flush, d on Close, unexpected errors, nothing foreign or of another session delivered) is judged per session, a malformed transmission relaxes only the sessions that had not ended when it fired. Signatures do not name the session (the message does). " +
+			"Non-trivial: at least one connected-data payload byte crossed in either direction in any session (returned by Read or received by the model in a 'D' frame). Distinct: distinct event-log hash (link deliveries, frames at the model, client calls and results with simulated timestamps).",
 		Real: []string{"transport/ax25/agwpe (TNC reader goroutine, demux levels, chain goroutines, Port, Conn, Listener, outstanding-frame polling)", "transport (URL, Flusher)"},
 		Stub: []string{"clock (testing/synctest)", "TCP link (sim/pipe behind the net shim, sim/simnet)", "AGWPE TNC (ref/agwtnc, written from the protocol description)", "application (scripted client goroutines)"},
 		Assumptions: []string{
 			"library runs on the Go 1.26.8 standard library, not 1.24.0",
 			"goroutine choice between two environment events is the Go runtime's at GOMAXPROCS=1",
 			"the TNC is a model: it answers as the AGWPE description and Direwolf's documented behaviour say, nothing more",
+			"consecutive connections with the same station on one Port are separated by a quiet link (nothing in flight, no refusal of an inbound call under way): AGWPE frames carry callsigns, not connection identifiers, so a late frame of the earlier connection cannot be told from traffic of the next one",
 		},
 		QuickRuns:    60000,
 		ThoroughRuns: 1200000,
@@ -89,16 +91,77 @@ func normalise(p *Plan) {
 			p.Second.Call = "N0SEC-1"
 		}
 	}
-	if len(p.Script.Frames) > 400 {
-		p.Script.Frames = p.Script.Frames[:400]
+	if len(p.More) > maxSessions-1 {
+		p.More = p.More[:maxSessions-1]
 	}
-	switch p.Script.End {
-	case "remote-disconnect", "local-close", "tnc-close":
-	default:
-		p.Script.End = "local-close"
+	for i := range p.More {
+		m := &p.More[i]
+		if m.Mode != "accept" {
+			m.Mode = "dial"
+		}
+		if m.Start != "overlap" && m.Start != "hasty" {
+			m.Start = "after"
+		}
+		m.Remote = clip9(m.Remote, p.Remote)
+		if m.Remote == p.MyCall || m.Remote == foreignCall || m.Remote == foreignLocal || (p.Second != nil && m.Remote == p.Second.Call) {
+			m.Remote = p.Remote
+		}
+		if len(m.Digis) > 7 {
+			m.Digis = m.Digis[:7]
+		}
+		for j := range m.Digis {
+			m.Digis[j] = clip9(m.Digis[j], "RELAY")
+		}
+		switch m.Connect {
+		case "refuse", "silent":
+		default:
+			m.Connect = "accept"
+		}
+	}
+	scripts := []*Script{&p.Script}
+	for i := range p.More {
+		scripts = append(scripts, &p.More[i].Script)
+	}
+	for i, sc := range scripts {
+		if len(sc.Frames) > 400 {
+			sc.Frames = sc.Frames[:400]
+		}
+		switch sc.End {
+		case "remote-disconnect", "local-close":
+		case "tnc-close":
+			if i != len(scripts)-1 {
+				sc.End = "local-close" // closing the TNC ends the run: only the last session can do it
+			}
+		default:
+			sc.End = "local-close"
+		}
+	}
+	if p.Fault != nil {
+		p.Fault.Session = clamp(p.Fault.Session, 0, maxSessions-1) % len(scripts)
 	}
 	if p.Link.Cut != nil && p.Link.Cut.Dir != "ab" {
 		p.Link.Cut.Dir = "ba"
+	}
+}
+
+// setGroups decides which sessions may overlap: a session that asks for it
+// joins the group of the session before it unless a session of that group
+// talks to the same station (AGWPE tells connections apart by callsign only,
+// and a station connects once at a time).
+func (r *run) setGroups() {
+	g := 0
+	var remotes []string
+	for i, se := range r.ss {
+		same := false
+		for _, x := range remotes {
+			same = same || x == se.sp.Remote
+		}
+		if i > 0 && (se.sp.Start != "overlap" || same) {
+			g++
+			remotes = nil
+		}
+		se.group = g
+		remotes = append(remotes, se.sp.Remote)
 	}
 }
 
@@ -133,7 +196,8 @@ func (Engine) Execute(t *testing.T, prop string, raw json.RawMessage, trace bool
 		}
 	}()
 	leak, pv, stack := core.Bubble(t, trace, func(sim *core.Sim) {
-		r := &run{sim: sim, p: &p}
+		r := newRun(sim, &p)
+		r.setGroups()
 		sim.Logf("plan %s", r.describe())
 		n := simnet.New(sim)
 		n.LinkPlan = func(string, int) pipe.Plan { return p.Link }
@@ -151,8 +215,11 @@ func (Engine) Execute(t *testing.T, prop string, raw json.RawMessage, trace bool
 				return
 			}
 			s.OnConnected = func(k agwtnc.ConnKey) {
-				if p.Mode != "accept" {
-					r.startPump(s, k)
+				// a connection the model establishes belongs to the session that is
+				// dialling that station right now (inbound connections are handed
+				// to their session by accept)
+				if se := r.sessionFor(k); se != nil {
+					r.startPump(se, s, s.ConnID(k))
 				}
 			}
 			s.Link.Tap(nil, func(b []byte) {
@@ -216,30 +283,149 @@ func (r *run) probes() {
 			sim.ProbeN(name, 0)
 		}
 	}
+	any := func(f func(se *sess) bool) bool {
+		for _, se := range r.ss {
+			if f(se) {
+				return true
+			}
+		}
+		return false
+	}
 	set("header-split-across-segments", r.trk.hdrSplit > 0)
 	set("data-field-split-across-segments", r.trk.dataSplit > 0)
 	set("several-frames-in-one-segment", r.trk.multi > 0)
-	set("reader-buffer-smaller-than-frame", r.smallBufHit)
-	set("foreign-frames-interleaved", r.foreignSent > 0)
-	set("burst-depth-12-reached", r.maxUnread >= 12)
-	set("digis-used", p.Mode == "dial" && len(p.Digis) > 0 && r.have)
-	set("accept-path-used", p.Mode == "accept" && r.have && r.readStarted)
-	set("write-never-returned", r.writeStuck)
+	set("reader-buffer-smaller-than-frame", any(func(se *sess) bool { return se.smallBufHit }))
+	set("foreign-frames-interleaved", any(func(se *sess) bool { return se.foreignSent > 0 }))
+	set("burst-depth-12-reached", any(func(se *sess) bool { return se.maxUnread >= 12 }))
+	set("digis-used", any(func(se *sess) bool { return se.sp.Mode == "dial" && len(se.sp.Digis) > 0 && se.have }))
+	set("accept-path-used", any(func(se *sess) bool { return se.sp.Mode == "accept" && se.have && se.readStarted }))
+	set("write-never-returned", any(func(se *sess) bool { return se.writeStuck }))
 	set("malformed-fired", r.faultFired)
 	sim.ProbeN("flush-waited-for-outstanding", 0)
 	sim.ProbeN("strict-complete-paced", 0)
+	sim.ProbeN("strict-complete-paced-later-session", 0)
 	set("regime-"+p.Regime, true)
+
+	// the multi-session arm: what happened on the same Port after an earlier session
+	ended := func(se *sess) string {
+		switch {
+		case !se.attempted:
+			return ""
+		case !se.established:
+			return "failed-connect"
+		case se.have && se.id >= 0 && r.sess != nil:
+			// who ended it: the model knows whether it sent the 'd' itself
+			if st, _, _ := r.sess.StateID(se.id); st == "closed" {
+				if se.sp.Script.End == "remote-disconnect" && se.pumpDone {
+					return "remote-disconnect"
+				}
+				return "local-close"
+			}
+		}
+		return "other"
+	}
+	names := []string{
+		"multi-session-plan", "sessions-on-the-same-port-after-an-earlier-one", "later-session-established",
+		"redial-of-the-same-remote", "same-remote-right-after-its-previous-session", "redial-after-local-close", "redial-after-remote-disconnect",
+		"redial-after-failed-connect", "later-session-with-a-different-remote", "dial-after-accept", "accept-after-dial",
+		"same-remote-calls-in-again", "overlapping-sessions", "later-session-read-data", "later-session-wrote-data",
+		"later-session-failed-connect", "session-not-started-port-closed", "session-not-started-station-still-connected",
+		"runs-with-3-or-more-established-sessions",
+	}
+	hit := map[string]bool{}
+	hit["multi-session-plan"] = len(r.ss) > 1
+	established := 0
+	for i, se := range r.ss {
+		if se.established {
+			established++
+		}
+		if i == 0 {
+			continue
+		}
+		switch se.skipped {
+		case "port-closed":
+			hit["session-not-started-port-closed"] = true
+		case "station-still-connected":
+			hit["session-not-started-station-still-connected"] = true
+		}
+		if !se.attempted {
+			continue
+		}
+		hit["sessions-on-the-same-port-after-an-earlier-one"] = true
+		if !se.established {
+			hit["later-session-failed-connect"] = true
+			continue
+		}
+		hit["later-session-established"] = true
+		if len(se.readData) > 0 {
+			hit["later-session-read-data"] = true
+		}
+		for _, w := range se.writes {
+			if w.Op >= 0 && r.ops[w.Op].Done && r.ops[w.Op].Err == "" {
+				hit["later-session-wrote-data"] = true
+			}
+		}
+		same := false
+		for k := i - 1; k >= 0; k-- {
+			o := r.ss[k]
+			if !o.attempted {
+				continue
+			}
+			if o.sp.Remote != se.sp.Remote {
+				continue
+			}
+			if !same {
+				// the latest earlier session with this station
+				same = true
+				hit["redial-of-the-same-remote"] = true
+				if k == i-1 {
+					hit["same-remote-right-after-its-previous-session"] = true
+				}
+				switch ended(o) {
+				case "local-close":
+					hit["redial-after-local-close"] = true
+				case "remote-disconnect":
+					hit["redial-after-remote-disconnect"] = true
+				case "failed-connect":
+					hit["redial-after-failed-connect"] = true
+				}
+				if se.sp.Mode == "accept" {
+					hit["same-remote-calls-in-again"] = true
+				}
+			}
+		}
+		if !same {
+			hit["later-session-with-a-different-remote"] = true
+		}
+		for k := 0; k < i; k++ {
+			o := r.ss[k]
+			if o.established && o.sp.Mode == "accept" && se.sp.Mode != "accept" {
+				hit["dial-after-accept"] = true
+			}
+			if o.established && o.sp.Mode != "accept" && se.sp.Mode == "accept" {
+				hit["accept-after-dial"] = true
+			}
+		}
+	}
+	hit["overlapping-sessions"] = r.overlapped
+	hit["runs-with-3-or-more-established-sessions"] = established >= 3
+	for _, n := range names {
+		set(n, hit[n])
+	}
 }
 
 func (r *run) sample() sample {
 	r.mu.Lock()
 	defer r.mu.Unlock()
-	s := sample{Case: r.describe(), Read: len(r.readData)}
-	for _, w := range r.writes {
-		s.Written += len(w.Data)
-	}
-	if r.sess != nil && r.have {
-		s.Sent, _ = r.sess.SentBytes(r.key)
+	s := sample{Case: r.describe()}
+	for _, se := range r.ss {
+		s.Read += len(se.readData)
+		for _, w := range se.writes {
+			s.Written += len(w.Data)
+		}
+		if r.sess != nil && se.have {
+			s.Sent += sum(r.sess.SentLens(se.id))
+		}
 	}
 	for _, o := range r.ops {
 		if len(s.Ops) < 24 {
@@ -252,7 +438,11 @@ func (r *run) sample() sample {
 			case o.Err != "":
 				res = o.Err
 			}
-			s.Ops = append(s.Ops, o.Name+":"+res)
+			name := o.Name
+			if o.Sess > 0 {
+				name = fmt.Sprintf("s%d.%s", o.Sess+1, name)
+			}
+			s.Ops = append(s.Ops, name+":"+res)
 		}
 	}
 	return s
